@@ -73,6 +73,8 @@ def gen(rng, tier):
         if rng.random() < 0.3 and sg.size(ast) >= 4:
             # the same requirement written with named sub-specifications
             defs, top = sg.modularize(rng, ast, max_subs=2, prefer_stateful=rng.random() < 0.5)
+            if rng.random() < 0.3:
+                defs, top = sg.add_alias(rng, defs, top, 'q1')       # a bare number or variable with a name of its own (also used as -(q1))
             tt = (lambda a: sg.to_text(a, None, common.dense_bounds)) if dense else (lambda a: sg.to_text(a))
             mo['subs'] = ['%s = %s;' % (nm, tt(a)) for nm, a in defs]
             mo['top'] = 'out = ' + tt(top) + ';'
